@@ -118,6 +118,10 @@ R7 = {
  'C16-json-shared-encoder':'first run ended inconclusive (exit 2, engine fault on `json.NewEncoder`): `(*json.Encoder).Encode` is now stubbed on top of the Marshal contract (marshalled bytes + newline in one Write to the encoder\'s writer), and `ZZ_C16_JSON` sends a second message through the same codec instance and looks at the first output again',
  'C20-write-rearm-after-inactive':'nothing passed the idle handler after inactive; variant 4 lets a read / a write pass it afterwards (a farewell written from an inactive handler): no timer may be armed and no idle event may follow',
 }
+R8 = {
+ 'C03-fire-exception-nil-guard-m8':'the exception fired into the pipeline was never nil; a fourth exception class (nil, what `AsException(recover())` yields on a path that did not panic) is routed and closes the channel like any other',
+ 'C11-writev-empty-fastpath-m8':'the payload written after Close was always three bytes; pre bit 2 writes an empty payload through every entry point, which must be refused like any other',
+}
 rows = []
 for d in sorted(glob.glob('/verif/seeded/*/')):
     m = json.load(open(d + 'meta.json'))
@@ -134,4 +138,4 @@ def table(rnd, notes):
     return '\n'.join(out)
 if __name__ == '__main__':
     import sys
-    print(table(int(sys.argv[1]), {'1': R1, '2': R2, '3': R3, '4': R4, '5': R5, '6': R6, '7': R7}[sys.argv[1]]))
+    print(table(int(sys.argv[1]), {'1': R1, '2': R2, '3': R3, '4': R4, '5': R5, '6': R6, '7': R7, '8': R8}[sys.argv[1]]))
